@@ -8,7 +8,9 @@
 #include "history.h"
 #include "plan.h"
 #include "runner.h"
+#include "destination.h"
 
+#include <dirent.h>
 #include <fcntl.h>
 #include <sys/stat.h>
 #include <unistd.h>
@@ -374,28 +376,6 @@ namespace vs
   default: result = VS_LOG_AT(quill::LogLevel::Critical, lg, fmt, ##__VA_ARGS__); break;                        \
   }
 
-inline std::string read_whole_file(std::string const& path)
-{
-  std::string out;
-  int fd = ::open(path.c_str(), O_RDONLY);
-  if (fd < 0)
-  {
-    return out;
-  }
-  char buf[65536];
-  for (;;)
-  {
-    ssize_t n = ::read(fd, buf, sizeof(buf));
-    if (n <= 0)
-    {
-      break;
-    }
-    out.append(buf, static_cast<size_t>(n));
-  }
-  ::close(fd);
-  return out;
-}
-
 extern VMBase* g_vm;
 void abandon_trampoline(char const* reason);
 
@@ -418,6 +398,7 @@ struct VM : VMBase
   std::vector<std::shared_ptr<quill::Sink>> sinks; // the user's references
   std::vector<int> sink_type;
   std::vector<std::string> sink_path;
+  std::vector<int64_t> sink_rotating; // > 0: a RotatingFileSink with this size limit
   std::vector<Slot> slots;
   std::vector<std::thread> threads;
   std::vector<bool> spawned, joined;
@@ -484,6 +465,10 @@ struct VM : VMBase
       sink_type.resize(static_cast<size_t>(i) + 1, 0);
       sink_path.resize(static_cast<size_t>(i) + 1);
     }
+    if (sink_rotating.size() < sinks.size())
+    {
+      sink_rotating.resize(sinks.size(), 0);
+    }
     sink_type[static_cast<size_t>(i)] = type;
     std::string name = "sink" + std::to_string(i);
     if (type == 0)
@@ -530,6 +515,33 @@ struct VM : VMBase
           return std::string{message};
         };
         sinks[static_cast<size_t>(i)] = Fe::template create_or_get_sink<quill::JsonFileSink>(path, cfg, fen);
+      }
+      else if (type == 1 && plan.get("sink" + std::to_string(i) + "_rotating", 0) > 0 &&
+               plan.get("sink" + std::to_string(i) + "_notifier", 0) != 2)
+      {
+        // a RotatingFileSink (index naming, no backup limit, optionally minutely rotation on top of the size limit): the
+        // destination is the set of its files
+        int64_t const limit = plan.get("sink" + std::to_string(i) + "_rotating", 0);
+        sink_rotating[static_cast<size_t>(i)] = limit;
+        quill::RotatingFileSinkConfig rcfg;
+        rcfg.set_open_mode('w');
+        rcfg.set_override_pattern_formatter_options(quill::PatternFormatterOptions{"%(message)"});
+        rcfg.set_rotation_max_file_size(static_cast<size_t>(limit));
+        rcfg.set_max_backup_files(std::numeric_limits<uint32_t>::max());
+        if (plan.get("sink" + std::to_string(i) + "_rot_minutely", 0) != 0)
+        {
+          rcfg.set_rotation_frequency_and_interval('M', 1);
+        }
+        quill::FileEventNotifier fen;
+        if (plan.get("sink" + std::to_string(i) + "_notifier", 0) == 1)
+        {
+          fen.before_open = [](quill::fs::path const&) {};
+          fen.after_open = [](quill::fs::path const&, FILE*) {};
+          fen.before_close = [](quill::fs::path const&, FILE*) {};
+          fen.after_close = [](quill::fs::path const&) {};
+          fen.before_write = [](std::string_view message) { return std::string{message}; };
+        }
+        sinks[static_cast<size_t>(i)] = Fe::template create_or_get_sink<quill::RotatingFileSink>(path, rcfg, fen);
       }
       else if (plan.get("sink" + std::to_string(i) + "_notifier", 0) != 0)
       {
@@ -727,7 +739,7 @@ struct VM : VMBase
       if (sink_type[i] != 0)
       {
         Ev& e = record(EV_FILE_SNAP, static_cast<int64_t>(i));
-        e.s = read_whole_file(sink_path[i]);
+        e.s = sink_rotating[i] > 0 ? read_rotating_destination(sink_path[i], &e.b) : read_whole_file(sink_path[i]); // b: rotated files
       }
     }
   }
@@ -919,7 +931,7 @@ struct VM : VMBase
     case OP_DELETE_FILE:
     {
       size_t i = static_cast<size_t>(op.v[0]) % sinks.size();
-      if (sink_type[i] == 1)
+      if (sink_type[i] == 1 && sink_rotating[i] == 0)
       {
         ::unlink(sink_path[i].c_str());
         Ev& e = record(EV_NOTE, 3, static_cast<int64_t>(i));
@@ -1252,6 +1264,7 @@ struct VM : VMBase
     sinks.resize(static_cast<size_t>(nsinks));
     sink_type.assign(static_cast<size_t>(nsinks), 0);
     sink_path.assign(static_cast<size_t>(nsinks), "");
+    sink_rotating.assign(static_cast<size_t>(nsinks), 0);
     for (int i = 0; i < nsinks; ++i)
     {
       make_sink(i);
